@@ -217,6 +217,12 @@ def write_evidence(pid, mod, tier, seed, t0, results, viol_count, extra):
     with open(tmp, "w") as f:
         json.dump(ev, f, indent=1, sort_keys=True)
     os.replace(tmp, os.path.join(d, "%s.json" % pid))
+    # a copy per tier, so that a later quick run does not erase what a thorough run covered
+    dt = os.path.join(d, tier)
+    os.makedirs(dt, exist_ok=True)
+    with open(os.path.join(dt, ".%s.json.tmp" % pid), "w") as f:
+        json.dump(ev, f, indent=1, sort_keys=True)
+    os.replace(os.path.join(dt, ".%s.json.tmp" % pid), os.path.join(dt, "%s.json" % pid))
 
 def main(argv=None):
     ap = argparse.ArgumentParser()
